@@ -195,14 +195,13 @@ def eval_expr(e, labels, emacros, vars_, depth=0):
         vals = {}
         for p, a in zip(params, e[2]):          # at least as many arguments as parameters; extra ones are ignored
             vals[p] = eval_expr(a, labels, emacros, vars_, depth)
-        if depth >= MAX_DEPTH:
-            raise Fault("Asm.MacroRecursionLimit", e[1])
-        r = eval_expr(body, labels, emacros, vals, depth + 1)
         if len(e[2]) < len(params):
             # C13: "every macro invocation supplies its parameters (… at least as many for expression macros)": too few
-            # arguments are a fault even when the missing parameter is never read (finding D28: etk accepts that)
-            raise Fault("D28.MissingArgument", params[len(e[2])])
-        return r
+            # arguments are a fault whether or not the missing parameter is read (D28, repaired by 841db2a)
+            raise Fault("UndeclaredVariableMacro", params[len(e[2])])
+        if depth >= MAX_DEPTH:
+            raise Fault("Asm.MacroRecursionLimit", e[1])
+        return eval_expr(body, labels, emacros, vals, depth + 1)
     raise AssertionError(k)
 
 
@@ -373,9 +372,9 @@ def check_names(e, emacros, defined, vars_=None, depth=0):
             check_names(a, emacros, defined, vars_, depth)
         if depth >= MAX_DEPTH:
             raise Fault("Asm.MacroRecursionLimit", e[1])
-        check_names(emacros[e[1]][1], emacros, defined, set(emacros[e[1]][0][:len(e[2])]), depth + 1)
         if len(e[2]) < len(emacros[e[1]][0]):
-            raise Fault("D28.MissingArgument", emacros[e[1]][0][len(e[2])])
+            raise Fault("UndeclaredVariableMacro", emacros[e[1]][0][len(e[2])])
+        check_names(emacros[e[1]][1], emacros, defined, set(emacros[e[1]][0][:len(e[2])]), depth + 1)
 
 
 # ------------------------------------------------------------------ rendering
